@@ -1226,17 +1226,24 @@ class Wtp:
         assert isinstance(text, str)
         # print("PREPROCESS_TEXT: {!r}".format(text))
 
-        def _nowiki_sub_fn(m: re.Match) -> CookieChar:
+        def _nowiki_sub_fn(m: re.Match) -> Union[CookieChar, str]:
             """This function escapes the contents of a <nowiki> ... </nowiki>
-            pair."""
+            pair, replaces <nowiki /> and drops comments."""
             nowiki_content = m.group(1)
-            return self._save_value("N", (nowiki_content,), True)
+            if nowiki_content is not None:
+                return self._save_value("N", (nowiki_content,), True)
+            if m.group(0).endswith("-->"):
+                return ""
+            return MAGIC_NOWIKI_CHAR
 
+        # One pass, whichever construct starts first wins: a comment that
+        # contains a <nowiki> tag is a comment, <nowiki> content that contains
+        # a comment keeps it as text.
         text = re.sub(
-            r"(?si)<nowiki\s*>(.*?)</nowiki\s*>", _nowiki_sub_fn, text
+            r"(?si)<nowiki\s*>(.*?)</nowiki\s*>|<nowiki\s*/>|\n?<!--.*?-->",
+            _nowiki_sub_fn,
+            text,
         )
-        text = re.sub(r"(?si)<nowiki\s*/>", MAGIC_NOWIKI_CHAR, text)
-        text = re.sub(r"(?s)\n?<!--.*?-->", "", text)
         # print("PREPROCESSED_TEXT: {!r}".format(text))
         return text
 
